@@ -93,4 +93,35 @@ CHECKS = {
         note="All clauses proved for the model. Go map order is not observable, so the tie compares property-relevant behaviour only (each implementation "
              "output must be an admissible Kahn run); exact FIFO reproduction is a diagnostic, never a failure (a LIFO work list does not alarm). "
              "Assumed: map key = hash of its transaction. No axioms (Print Assumptions closed x5; coqchk: none)."),
+    "C07": dict(
+        text="Model Fee/Fee.v transcribes txrules.FeeForSerializeSize (truncation, zero-fee-becomes-rate rule, MaxSatoshi clamp), mempool GetDustThreshold/"
+             "IsDust, txsizes.EstimateVirtualSize, the loop of txauthor.NewUnsignedTransaction over a prefix-accumulating input source (fuel |coins|+1) and "
+             "the serialized virtual size of the signed transaction as a function of the actual signature lengths. Proved for every output list, every rate "
+             "from the relay floor upward, every arrangement of P2PKH/P2TR/P2WPKH/nested-P2WPKH coins and every change script size, unbounded: C07_terminates, "
+             "C07_outputs_kept (requested outputs unchanged and in order, change appended), C07_value_conserved (sum in = sum out + fee), "
+             "C07_fee_covers_real_size (fee >= fee_for rate (real signed vsize) for every admissible signature-length assignment and every output count; "
+             "252/253 and 65535/65536 are instances), C07_fee_upper_bound (fee < fee_for rate (worst-case estimate with one change output) + dust threshold "
+             "of the change script), C07_change_never_dust, C07_insufficient_funds (only if no prefix of the arrangement covers outputs + its required fee). "
+             "Three regenerated facts are discharged by computation against Generated/TxsizesConsts.v (constants exact, varint counts the change output, "
+             "initial guess minimal). Tie to the code: real NewUnsignedTransaction + AddAllInputScripts with real secp256k1 keys, every input verified by the "
+             "txscript engine, size measured with mempool.GetTxVirtualSize; rounds, input kinds, estimate, fee, change index/amount compared per case.",
+        note="Two defects found and repaired (fix: 0bde911 output-count varint, fix: 0390ece initial fee guess); their replays run first from corpus/C07. "
+             "Assumptions: prefix-accumulator input source (wallet.makeInputSource); compressed keys; rate >= 1000 for the rate bounds; int64 wrap not "
+             "modelled. Admissible signatures: DER <= 72, Schnorr <= 65, and DER <= 71 (low-S, what btcec signs) for P2PKH inputs of a transaction that also "
+             "has witness inputs - the estimator ignores the 1 wu empty-witness byte of such inputs (witness kept as C07_high_s_mixed_not_covered). "
+             "wallet-level RandomizeChangePosition is outside the model. No axioms (Print Assumptions closed x8; coqchk: none)."),
+    "C09": dict(
+        text="Interleaving model of address issuance: N threads (any N, any site mix, n >= 0 addresses per request, commit or rollback) with steps Lock, Begin, "
+             "Read(in-memory index), Write, Commit/Abort, Callback, Unlock over newAddrMtx, the bbolt writer lock, the cached and the on-disk next index. "
+             "C09_all_schedules: for ALL schedules, requests made through sites that hold the mutex never receive duplicate indices, the issued indices are "
+             "exactly [n0, n0+k), and once all requests returned memory = disk = n0+k with no lock held; C09_each_request_obtains; C09_no_deadlock; "
+             "C09_unsafe_without_mutex / C09_unsafe_one_site_without_mutex (witness schedules). C09_sites_hold_mutex and C09_model_applies are decided by "
+             "vm_compute on Generated/AddrSites.v, regenerated by a go/ast extractor from wallet/*.go and waddrmgr on every run (six sites, all held). Dynamic leg: "
+             "real wallet.Wallet on bbolt behind a walletdb proxy that parks a request between its real commit and its OnCommit handlers; all 47 ordered pairs "
+             "of NewAddress/NewChangeAddress/CurrentAddress/CreateSimpleTx/dry run/FundPsbt with B started inside A's window, random gated scripts, stress runs; "
+             "observed schedule replayed on the model; oracle: duplicate_address, index_gap, memory_disk_disagree (vs a fresh waddrmgr.Open on a copy).",
+        note="PARTIAL: Go scheduler and memory model are not modelled (atomic lock-level steps); the site table is a syntactic go/ast check (it refuses function "
+             "values, hand-written Begin/Commit pairs and conditional locking instead of guessing); one counter (scope/account/branch) per theorem instance; "
+             "recovery (extendFoundAddresses) is outside the quantifier; no -race run (CGO off). Trusted: Coq kernel+vm_compute, Conc.v, extract-c09, proxydb, "
+             "bbolt writer exclusivity. No axioms."),
 }
